@@ -9,6 +9,7 @@ lost, duplicated, re-ordered, delayed across attempts; timeouts may fire anywher
 (start, length), all event sequences of any length — by induction.
 -/
 import GeckoModel.Proofs.TransferSync
+import GeckoModel.Generated.ThreadedFacts
 
 namespace GeckoModel.C01
 open GeckoModel GeckoModel.Generated
@@ -169,5 +170,15 @@ example : (simChain exSpa 3 78).map (fun s => (s.idx, s.next, s.data.length)) = 
 example : (asyncGet 3 [.seg (simSeg exSpa 3 78 0), .timeout,
                        .seg (simSeg exSpa 3 78 0), .seg (simSeg exSpa 3 78 0), .seg (simSeg exSpa 3 78 1)]
             (List.replicate 100 0) 3 0) = ⟨true, replaceSeg (List.replicate 100 0) 3 (spaRun exSpa 3 78), 2⟩ := by decide +kernel
+
+/-- **why the threaded assembler may be modelled one datagram at a time**: the event streams of the theorems above give the
+assembler ONE segment, then let the engine remove a finished request before the next one is looked at.  That is the shape of the
+engine loop - one `recvfrom` per trip, clean-up after the dispatch - and it is audited statement by statement on every run by C20's
+translator (`Generated/ThreadedFacts.lean`; a changed shape leaves a stub and this obligation fails to build): the receive step and the
+loop are among the audited shapes and the phases run in the order send, receive, handler loops, clean-up -/
+theorem engine_hands_over_one_datagram_per_cleanup :
+    "GeckoUdpSocket._process_received_data" ∈ auditedShapes ∧ "GeckoUdpSocket._thread_func" ∈ auditedShapes ∧
+    "GeckoUdpSocket._cleanup_handlers" ∈ auditedShapes ∧ "GeckoUdpSocket.dispatch_recevied_data" ∈ auditedShapes ∧
+    threadPhaseCodes = [0, 1, 2, 3, 4] := by decide
 
 end GeckoModel.C01
